@@ -21,6 +21,12 @@ use ractor_cluster::node::node_session::verif_remote::{VFrame, VerifRemoteSessio
 use ractor_cluster::remote_verif::{VerifProxy, VerifSent};
 use rv_harness::*;
 
+/// The code under test wedged the case: an observation (`stuck "<why>"`), not an infrastructure problem.
+struct Stuck(String);
+fn stuck(msg: &str) -> ! {
+    std::panic::panic_any(Stuck(msg.to_string()))
+}
+
 fn u(s: &str) -> u64 {
     s.parse().unwrap_or_else(|_| panic!("bad number {s:?}"))
 }
@@ -176,13 +182,21 @@ impl ractor::Message for RawMsg {
 struct RawProbe {
     idx: u64,
     log: Arc<Mutex<Vec<String>>>,
+    slot: Arc<Mutex<Option<ActorCell>>>,
+    gate: Option<Arc<tokio::sync::Semaphore>>,
 }
 
 impl Actor for RawProbe {
     type Msg = RawMsg;
     type State = Vec<RpcReplyPort<Vec<u8>>>;
     type Arguments = ();
-    async fn pre_start(&self, _: ActorRef<RawMsg>, _: ()) -> Result<Self::State, ActorProcessingErr> {
+    async fn pre_start(&self, myself: ActorRef<RawMsg>, _: ()) -> Result<Self::State, ActorProcessingErr> {
+        *self.slot.lock().unwrap() = Some(myself.get_cell());
+        if let Some(g) = &self.gate {
+            if let Ok(p) = g.acquire().await {
+                p.forget();
+            }
+        }
         Ok(vec![])
     }
     async fn handle(&self, _: ActorRef<RawMsg>, m: RawMsg, held: &mut Self::State) -> Result<(), ActorProcessingErr> {
@@ -223,6 +237,7 @@ async fn run_sess(rest: &str) -> String {
     let mut handles: HashMap<u64, ActorCell> = HashMap::new(); // remote pid -> last seen proxy cell
     let mut ports: BTreeMap<u64, OneshotReceiver<Vec<u8>>> = BTreeMap::new();
     let mut groups_used: Vec<u64> = Vec::new();
+    let mut gates: HashMap<u64, Arc<tokio::sync::Semaphore>> = HashMap::new();
     let mut outs: Vec<String> = Vec::new();
     // settle: let every task run, feed the queued events/messages to the real handlers, repeat
     async fn settle(sess: &mut VerifRemoteSession) {
@@ -238,8 +253,7 @@ async fn run_sess(rest: &str) -> String {
                 quiet = 0;
             }
         }
-        eprintln!("eng_remote: INFRA FAILURE: session did not settle");
-        std::process::exit(2);
+        stuck("the session did not settle within 200 virtual ms")
     }
     settle(&mut sess).await;
     let _ = sess.take_sent(); // initial sync: Ready (nothing exists yet)
@@ -256,9 +270,35 @@ async fn run_sess(rest: &str) -> String {
         match w[0] {
             "spawn" => {
                 let i = u(w[1]);
-                let (a, _) = Actor::spawn(None, RawProbe { idx: i, log: log.clone() }, ()).await.expect("probe");
+                let slot = Arc::new(Mutex::new(None));
+                let (a, _) = Actor::spawn(None, RawProbe { idx: i, log: log.clone(), slot, gate: None }, ()).await.expect("probe");
                 pid_idx.insert(a.get_id().pid(), i);
                 probes.insert(i, a.get_cell());
+            }
+            "sspawn" => {
+                // the actor exists and is announced, but stays in pre_start until `release i`
+                let i = u(w[1]);
+                let slot: Arc<Mutex<Option<ActorCell>>> = Arc::new(Mutex::new(None));
+                let gate = Arc::new(tokio::sync::Semaphore::new(0));
+                let probe = RawProbe { idx: i, log: log.clone(), slot: slot.clone(), gate: Some(gate.clone()) };
+                tokio::spawn(async move {
+                    let _ = Actor::spawn(None, probe, ()).await;
+                });
+                for _ in 0..100 {
+                    if slot.lock().unwrap().is_some() {
+                        break;
+                    }
+                    tokio::time::sleep(Duration::from_millis(1)).await;
+                }
+                let cell = slot.lock().unwrap().clone().unwrap_or_else(|| stuck("the gated probe never entered pre_start"));
+                pid_idx.insert(cell.get_id().pid(), i);
+                probes.insert(i, cell);
+                gates.insert(i, gate);
+            }
+            "release" => {
+                if let Some(g) = gates.get(&u(w[1])) {
+                    g.add_permits(1);
+                }
             }
             "join" | "leave" => {
                 let (i, g) = (u(w[1]), u(w[2]));
@@ -282,13 +322,13 @@ async fn run_sess(rest: &str) -> String {
                 }
                 hold = w[0] == "hexit";
             }
-            "rcast" | "hrcast" => {
+            "rcast" | "hrcast" | "grcast" => {
                 // h...: the next frame is handled back to back (no task gets to run in between)
                 nosettle = w[0] == "hrcast";
                 let to = local_pid(&probes, u(w[1]));
                 sess.receive(VFrame::Cast { to, variant: w[2].to_string(), what: bytes(w[3]) }).await;
             }
-            "rcall" | "hrcall" => {
+            "rcall" | "hrcall" | "grcall" => {
                 nosettle = w[0] == "hrcall";
                 let to = local_pid(&probes, u(w[1]));
                 sess.receive(VFrame::Call { to, tag: u(w[2]), variant: w[3].to_string(), what: bytes(w[4]), timeout_ms: None })
@@ -425,6 +465,9 @@ async fn run_sess(rest: &str) -> String {
             coq_nums(adv)
         ));
     }
+    for g in gates.values() {
+        g.add_permits(1);
+    }
     for c in probes.values() {
         let _ = c.stop_and_wait(None, None).await;
     }
@@ -434,16 +477,34 @@ async fn run_sess(rest: &str) -> String {
 
 fn main() {
     let rt = tokio::runtime::Builder::new_current_thread().enable_all().build().unwrap();
-    for line in stdin_lines() {
+    let lines = stdin_lines();
+    let total = lines.len();
+    for (n, line) in lines.into_iter().enumerate() {
         let (kind, rest) = line.split_once(' ').unwrap_or((&line, ""));
-        let out = match kind {
+        let res = std::panic::catch_unwind(std::panic::AssertUnwindSafe(|| match kind {
             "proxy" => rt.block_on(run_proxy(rest)),
             "sess" => {
                 let rtp = tokio::runtime::Builder::new_current_thread().enable_all().start_paused(true).build().unwrap();
-                rtp.block_on(run_sess(rest))
+                let out = rtp.block_on(run_sess(rest));
+                drop(rtp);
+                out
             }
-            other => panic!("unknown case kind {other}"),
-        };
-        println!("{out}");
+            other => {
+                eprintln!("eng_remote: unknown case kind {other}");
+                std::process::exit(2)
+            }
+        }));
+        match res {
+            Ok(out) => println!("{out}"),
+            Err(p) => {
+                // the real handlers panicked or wedged: report it, do not evaluate the rest of the batch
+                let why = p.downcast_ref::<Stuck>().map(|s| s.0.clone()).unwrap_or_else(|| "a handler panicked".to_string());
+                println!("stuck \"{}\"", why.replace('"', "'"));
+                for _ in n + 1..total {
+                    println!("skipped");
+                }
+                std::process::exit(0);
+            }
+        }
     }
 }
